@@ -215,7 +215,7 @@ class Profile:
             raise ValueError(k)
 
 SIMPLE = [1, 2, 3, 9, 10, 12, 13, 126, 127, 130, 131, 132, 135, 137, 138, 140, 141, 142, 143, 22, 23, 24, 30, 32, 33, 40, 42, 43, 50, 52, 53, 60, 61, 62, 63, 64, 65, 66, 67, 68, 120, 122, 123]
-SEQSH = [5, 6, 7, 8, 11, 25, 26, 27, 34, 44, 54, 56, 69, 121, 124, 125, 133, 139]
+SEQSH = [5, 6, 7, 8, 11, 25, 26, 27, 34, 44, 54, 56, 69, 121, 124, 125, 133, 139, 145, 146]
 
 PROFILES = {
     'lifecycle': Profile('lifecycle', SIMPLE,
@@ -239,7 +239,7 @@ PROFILES = {
     'forbid': Profile('forbid', [12, 13, 14, 2, 9, 10, 1, 3, 33, 43, 53, 30, 40, 50, 23, 62, 63, 68, 65, 67, 64, 126, 126, 127, 132, 138, 131, 137],
                       dict(mock=1, expect=8, call=6, call_live=14, release=4, dmock=0.7, scope=3, endscope=3), nmock=2,
                       bounds=((0, 0), (0, 0), (1, 1), (0, INF), (1, 2)), prelude=('mock',)),
-    'clauses': Profile('clauses', [4, 8, 16, 21, 25, 31, 41, 51, 15, 55, 3, 10, 13, 90, 91, 92, 134, 136, 140, 141],
+    'clauses': Profile('clauses', [4, 8, 16, 21, 25, 31, 41, 51, 15, 55, 3, 10, 13, 90, 91, 92, 134, 136, 140, 141, 147, 148],
                        dict(mock=0.5, seq=1, expect=8, call_live=14, call=3, release=2), nmock=1, nseq=2,
                        se_beh=(0, 0, 0, 0, 1, 2, 3, 3), prelude=('mock', 'seq', 'seq'),
                        bounds=((1, 1), (0, INF), (1, 3), (2, 2))),
